@@ -158,7 +158,7 @@ PROPS.update({
                                         "while a blocking stream creation holds the stream's mutex no other method is issued (mutex waits are not observable in a synctest bubble)"]),
     "C11": dict(kind="harness", pkg="./keys", test="TestC11",
                 quick=dict(checks=40000, shards=2, timeout=600),
-                thorough=dict(checks=1000000, shards=16, timeout=10800, fuzz=("FuzzC11", 180)),
+                thorough=dict(checks=400000, shards=16, timeout=10800, fuzz=("FuzzC11", 180)),  # reflect keeps every generated struct type: ~4 kB per case and process
                 rule="(type, value, locator) triples: struct types built with reflect.StructOf from a drawn shape tree (depth<=3; string,int,bool,*string,[]string,[]int,"
                      "struct,*struct,[]struct,[]*struct; colliding field names), values with nil pointers / nil and empty slices / nil list elements at every depth, locators = "
                      "a valid path of the type, mutated in 35% of the cases (case, extra/dropped/doubled/empty segments, unicode); 10% exotic Go values (embedded nil pointers, "
